@@ -21,7 +21,7 @@ RULE = ("Configurations: explainer in {IncrementalPFI, IncrementalSage, BatchSag
         "(mixed categorical/numerical for trees; tree seed explicit or left at its default). Differential replay: run A (seed both global "
         "generators, build fresh, stream) vs run B in the same process after INTERFERENCE (other storages/explainers/imputers/trackers/"
         "river metrics created and used - consuming global draws and allocating -, gc.collect(), time.time/time_ns/perf_counter/monotonic "
-        "patched to other constants), then reseed and replay; quick: 2 cases, thorough: every 8th case additionally run C in a FRESH "
+        "(and the process-time clocks) replaced by clocks the check owns: another origin, advancing by 0 s / 1 us / 2 s / one day per reading), then reseed and replay; quick: 2 cases, thorough: every 8th case additionally run C in a FRESH "
         "interpreter (same PYTHONHASHSEED, different object addresses). Digest = float.hex of every importance value after every call + "
         "final storage contents (TreeStorage: reservoir contents per leaf key); must be bit-identical. Non-trivial: the digest CHANGES "
         "when the seeds change (third run) - otherwise the comparison is vacuous; distinct by case digest.")
@@ -209,20 +209,30 @@ def interfere(level):
 
 
 class PatchedClocks:
-    def __init__(self, offset):
+    """The check owns the clocks during the replay: they start at an arbitrary offset and ADVANCE by `step` seconds per reading
+    (0 = frozen, 1e-6 = a very fast machine, 2.0 / 86400.0 = a very slow one), whereas the first run saw the real clocks."""
+
+    def __init__(self, offset, step=0.0):
         self.offset = offset
+        self.step = step
+        self.reads = 0
         self.saved = {}
 
+    def _now(self, base):
+        self.reads += 1
+        return base + self.offset + self.step * self.reads
+
     def __enter__(self):
-        for name in ('time', 'time_ns', 'perf_counter', 'monotonic', 'perf_counter_ns', 'monotonic_ns'):
+        for name in ('time', 'time_ns', 'perf_counter', 'monotonic', 'perf_counter_ns', 'monotonic_ns', 'process_time', 'process_time_ns'):
             self.saved[name] = getattr(time, name)
-        off = self.offset
-        time.time = lambda: 1.7e9 + off
-        time.time_ns = lambda: int((1.7e9 + off) * 1e9)
-        time.perf_counter = lambda: 12345.0 + off
-        time.monotonic = lambda: 999.0 + off
-        time.perf_counter_ns = lambda: int((12345.0 + off) * 1e9)
-        time.monotonic_ns = lambda: int((999.0 + off) * 1e9)
+        time.time = lambda: self._now(1.7e9)
+        time.time_ns = lambda: int(self._now(1.7e9) * 1e9)
+        time.perf_counter = lambda: self._now(12345.0)
+        time.monotonic = lambda: self._now(999.0)
+        time.perf_counter_ns = lambda: int(self._now(12345.0) * 1e9)
+        time.monotonic_ns = lambda: int(self._now(999.0) * 1e9)
+        time.process_time = lambda: self._now(5.0)
+        time.process_time_ns = lambda: int(self._now(5.0) * 1e9)
         return self
 
     def __exit__(self, *a):
@@ -237,7 +247,7 @@ def run_case(case, fresh_interpreter=False):
         return Result(False, key=f'C18:exception:{type(e).__name__}', detail=f'{e!r} for {case}')
     keep = interfere(case.get('interference', 1))
     try:
-        with PatchedClocks(case.get('clock_offset', 1000.0)):
+        with PatchedClocks(case.get('clock_offset', 1000.0), case.get('clock_step', 0.0)):
             db = execute(case)
     except Exception as e:
         return Result(False, key=f'C18:replay-raises:{type(e).__name__}',
@@ -298,7 +308,8 @@ def cases(draw, combo):
             'seeds': [draw(gen.seed32) % (2 ** 31), draw(gen.seed32) % (2 ** 31)], 'stream_seed': draw(st.integers(0, 10 ** 6)),
             'tree_seed': tree_seed if storage == 'tree' else None, 'model_kind': tree_seed if tree_seed in ('river_str', 'river_bound') else 'plain',
             'grace': draw(st.sampled_from([5, 8, 20])),
-            'interference': rev(0, 5), 'clock_offset': draw(st.sampled_from([1000.0, 0.0, -5e8]))}
+            'interference': rev(0, 5), 'clock_offset': draw(st.sampled_from([1000.0, 0.0, -5e8])),
+            'clock_step': draw(st.sampled_from([2.0, 0.0, 1e-6, 86400.0]))}
 
 
 SUBS = {'replay': run_case}
